@@ -1,5 +1,5 @@
 From Coq Require Import Extraction ExtrOcamlBasic NArith ZArith.
-From Storage Require Import Base.Bytes Codec.CodecBase Codec.Varint Codec.CompoundKey Codec.FieldCodec Codec.Containers Codec.Persist Codec.Getters.
+From Storage Require Import Base.Bytes Codec.CodecBase Codec.Varint Codec.CompoundKey Codec.FieldCodec Codec.Containers Codec.Persist Codec.Getters Codec.CheckerRepr.
 Extraction Language OCaml.
 Definition force_types : nat * N * Z := (O, 0%N, 0%Z).
 Extraction "c13_model.ml" force_types
@@ -13,4 +13,5 @@ Extraction "c13_model.ml" force_types
   get_path ensure_path at_path node_at parent_context override_context resolve init_slots level_path
   ctx_write apply_write step run trace persist persist_trace
   get_string_with_default get_string_or_error get_bool_with_default get_int32_with_default get_int64_with_default
-  get_time_or_default get_time_or_error is_string_list_empty child_buckets names_set copy_bucket copy_paths prune.
+  get_time_or_default get_time_or_error is_string_list_empty child_buckets names_set copy_bucket copy_paths prune
+  repr_checker repr_selects.
